@@ -140,8 +140,11 @@ Fixpoint split_last (w : str) (ts : list tok) (d : nat) (pre : list tok)
   match ts with
   | [] => best
   | t :: r =>
+      let is_pattern := match pre with          (* the word after "<quantifier> of" is a pattern *)
+                        | TW o :: TW q :: _ => str_eqb o w_of && match quant_of q with Some _ => true | None => false end
+                        | _ => false end in
       let best' := match t with
-                   | TW x => if (d =? 0)%nat && str_eqb x w then Some (rev pre, r) else best
+                   | TW x => if (d =? 0)%nat && str_eqb x w && negb is_pattern then Some (rev pre, r) else best
                    | _ => best end in
       let d' := match t with TL => S d | TR => pred d | _ => d end in
       split_last w r d' (t :: pre) best'
